@@ -163,10 +163,13 @@ def write_shapefile(
         for i, polygon in enumerate(dataset.ems.polygons):
             if polygon is None:
                 continue
+            # Record values are passed by position. DBF field names are
+            # truncated to 10 characters, so 'linear_index' would not match
+            # its field if passed by keyword and the value would be left blank.
             writer.record(
-                name=f'polygon{i}',
-                linear_index=i,
-                index=json.dumps(dataset.ems.wind_index(i)),
+                f'polygon{i}',
+                i,
+                json.dumps(dataset.ems.wind_index(i)),
             )
             writer.shape(polygon.__geo_interface__)
 
